@@ -21,7 +21,7 @@ IsEv(e) == l <= Len(Rec) /\ Rec[l].ev = e /\ l' = l + 1
 AllTrue(rec) == \A k \in DOMAIN rec : rec[k]
 IsPerturb(c) == Len(c) >= 8 /\ SubSeq(c, 1, 8) = "perturb:"
 Rejecting == {"challenge", "params", "simulated_other_challenge", "identity_signature", "signature_on_other_message", "signature_by_other_key",
-              "signature_on_shifted_message_response_shifted"}
+              "signature_on_shifted_message_response_shifted", "commitment_cancels_x2"}
 
 TProof ==
   /\ IsEv("proof")
